@@ -229,3 +229,8 @@ package smpp34
 //@   layout dispatch
 
 // ---- hand-written below ----
+
+// GenEmptyResponse derives the response id from GetCommand(): callers see the body, not only the contract.
+
+//@ func (b *Bind) GetCommand
+//@   inline
